@@ -159,6 +159,17 @@ def run(ctx):
             if qslst.psnr(y, x) == float('inf'): viol('C18:psnr:unequal' + tag, 'psnr is inf for unequal arrays', {'x': x.tolist(), 'y': y.tolist()})
             if qslst.relative_error(y, x) == 0.0: viol('C18:relerr:unequal' + tag, 'relative_error is 0 for unequal arrays', {'x': x.tolist(), 'y': y.tolist()})
         ctx.count(('metric', x.tobytes()), True)
+    # differences that are the same number in every entry (a brightness offset): the mean of the difference must not be removed
+    for shp in ((3, 5), (1, 7), (6, 1), (4, 4)):
+        xr = np.array([[float(rng.randint(0, 200)) for _ in range(shp[1])] for _ in range(shp[0])])
+        for off in (8.0, -0.5, 1.0):
+            for dr in (None, 255.0):
+                pv = qslst.psnr(xr + off, xr, data_range=dr)
+                want = 10.0 * math.log10(((dr if dr is not None else float(xr.max() - xr.min() or 1.0)) ** 2) / (off * off))
+                if not (math.isfinite(pv) and abs(pv - want) <= 1e-9 * max(1.0, abs(want))):
+                    viol('C18:psnr:constant-offset', f'psnr of an image against itself plus the constant {off} is {pv!r}, expected 10 log10(range^2 / {off * off}) = {want!r}', {'shape': list(shp), 'offset': off, 'data_range': dr}, pv, want)
+            if qslst.relative_error(xr + 8.0, xr) == 0.0: viol('C18:relerr:constant-offset', 'relative_error is 0 for unequal arrays (constant offset)', {'shape': list(shp)})
+        ctx.count(('metric-offset', shp), True)
     # differences so small that their squares underflow
     xu = np.array([[1.0, 0.0]]); yu = np.array([[1.0, 1e-170]])
     if qslst.psnr(yu, xu) == float('inf'): viol('C18:psnr:unequal:underflow', 'psnr is inf for unequal arrays (squared difference underflows)', {'x': xu.tolist(), 'y': yu.tolist()})
@@ -214,6 +225,7 @@ def run(ctx):
         xr = np.array([rng.randint(-8, 8) / 4.0 for _ in range(n)])
         x = xr + np.array([rng.choice((0, 0, 1, -1, 2)) / 8.0 for _ in range(n)])
         if it % 5 == 0: x = xr.copy()
+        if it % 5 == 3: x = xr + 0.375
         if it % 5 == 1: xr = np.zeros(n)
         if it % 5 == 2: xr = np.full(n, 0.75)                                # constant reference: the default range falls back to 1.0
         for dr in (None, 2.0):
